@@ -82,6 +82,10 @@ def g_c13(rng, tier):
         c["ops"].insert(len(c["ops"]) - 2, G.gen_warm_op(rng, arms_now))
     return c
 
+def g_c14(rng, tier):
+    t = REL.gen_c14(rng, tier)
+    return t["base"]
+
 PROPS = {
     "C01": {"gen": g_c01, "fields": ("out", "arms", "cfexp", "stats", "status"), "functional": True,
             "n": (400, 8000), "relations": [],
@@ -106,6 +110,19 @@ PROPS = {
             "relations": [("predict_is_argmax", g_c09, REL.run_c09, (300, 6000))],
             "rule": "at every query point of a random history, predict on one deep copy vs first arg-max of predict_expectations on another; "
                     "non-trivial = >= 1 query compared"},
+    "C13": {"gen": g_c13, "fields": ("out", "arms", "cold", "cfexp", "stats", "status", "beta"), "functional": False, "n": (300, 6000),
+            "relations": [("warm_start_laws", REL.gen_c13, REL.run_c13, (300, 6000))],
+            "rule": "context-free and linear bandits, histories with warm_start (zero, duplicate, parallel and one-hot tie feature vectors, quantiles 0/.25/.5/.75/1/random) "
+                    "before and after training and arm changes; relation: only cold arms change, donor = closest trained arm within the independently recomputed threshold, "
+                    "idempotent, monotone in the quantile, cold_arms spec; non-trivial = a warm_start call on a trained bandit"},
+    "C14": {"gen": g_c14, "fields": ("out", "arms", "cfexp", "stats", "nhist", "leaves"), "functional": False, "n": (150, 2000),
+            "relations": [("binarizer_vs_preconverted", REL.gen_c14, REL.run_c14, (200, 3000))],
+            "rule": "Thompson Sampling with threshold / flip / greater-than binarizers alone and under Radius, KNearest, LSHNearest, Clusters, TreeBandit; "
+                    "add_arm may install a new binarizer; twin bandit without binarizer is fed the converted rewards; non-trivial = >= 1 training call"},
+    "C20": {"gen": g_any, "fields": ("out", "arms"), "functional": False, "n": (150, 2000),
+            "relations": [("relabel_permute_shift_scale", REL.gen_c20, REL.run_c20, (300, 6000))],
+            "rule": "relabelling int->str/float/negative int on every policy combination; random row permutations of each training batch (context-free, linear, Radius, LSH); "
+                    "dyadic reward shifts (greedy/UCB1/Softmax) and scalings (LinGreedy); non-trivial = >= 1 compared output"},
     "C10": {"gen": g_any, "fields": ("out", "arms", "cold", "cfexp", "stats", "status", "nhist", "lsh", "leaves"), "functional": False, "n": (150, 2000),
             "relations": [("queried_vs_unqueried", REL.gen_c10, REL.run_c10, (200, 4000))],
             "rule": "history, 1-5 intervening queries on one bandit, stream positions copied to its unqueried deep copy, same continuation on both; "
